@@ -208,7 +208,8 @@ CHECKS["C11"] = {
     "outside": "PANICKING effects (Kani has no unwinding; the pool's panic recovery is not modelled) - that part of the quantifier is not addressed; slow effects / worker starvation; the 3 s join timeout; Effect::Action whose thunk runs after close() (the property exempts it; the code panics in a worker on expect())",
     "assumptions": [_SEQ_ASSUME, "pool model: every submitted task runs exactly once, on a worker context, before a join returns"],
     "quick": U_EFFECT_Q + U_EFFECT_C[:1] + G_EFF_S2 + G_EFF_WITNESS + U_PHASE_TWIN,
-    "thorough": U_EFFECT_T + U_EFFECT_C[1:] + U_EFFECT_C2 + G_EFF_S2_T + G_EFF_HOST_T + G_EFF_TWIN,
+    "not_registered": "g_effects::g_effects_{task,action,thunk,function,client_tasks} (reducer loop as host with workers and stop() scheduled when idle) and g_effects_s2_function_thunk do not finish within 30 min / 32 GB (5.3 M program steps): not registered, nothing is claimed from them",
+    "thorough": U_EFFECT_T + U_EFFECT_C[1:] + U_EFFECT_C2 + G_EFF_S2_T[:1],
 }
 
 def _g2(n, what, bounds, **kw):
@@ -222,6 +223,21 @@ CHECKS["C19"] = {
     "quick": [_g2("g_two_stop", _W_TWO, "A: 2+1 actions, B: 1 action, B stopped first"), _g2("g_two_drop", _W_TWO, "A: 1+1 actions, B: 2 actions, B dropped through DroppableStore"), _g2("twin_g_two", "vacuity twin", "", role="twin")],
     "thorough": [_g2("g_two_stop_idle_b", _W_TWO, "B idle when stopped")],
 }
+
+_W_RACE = "REAL stop()/close()/loop glue with phase summaries; another client thread's dispatch (symbolic action, entry point varied) is run to completion at ONE concrete scheduling point inside stop() (before / after the shutdown marker is enqueued, at the join) or inside the loop run that stop() waits for (before/after each recv, in each phase); the call is skipped where the host holds the sender lock it needs (not enabled there); oracle: Ok => reduced exactly once before stop() returns, Err => never reduced, backlog in order"
+_RACE_ALL = ["s_race_b1_close_send", "s_race_b1_close_sent", "s_race_b0_close_sent", "s_race_b1_join", "s_race_b1_loop_recv0", "s_race_b1_loop_taken0", "s_race_b1_loop_reduce", "s_race_b1_loop_effect", "s_race_b1_loop_notify", "s_race_b1_loop_recv1", "s_race_b1_loop_taken1"]
+S_RACE = [_g(n, _W_RACE, "backlog %s, placement %s" % (n[8], n[10:]), timeout_s=800) for n in _RACE_ALL]
+_W_LOCKS = "lock-discipline probes bound to the model's scheduling points: at every enqueue on the dispatch queue the dispatch_tx lock is held (sends are serialised; nothing can be accepted behind the shutdown marker); at the pool join no store lock (pool, dispatch_tx, subscribers) is held"
+G_LOCKS = [_g("g_locks_k3_stop", _W_LOCKS, "3 dispatches through the three entry points, stop()", timeout_s=800), _g("g_locks_k1_close_stop", _W_LOCKS, "close(); stop()", timeout_s=800), _g("g_locks_k1_drop", _W_LOCKS, "drop(DroppableStore)", timeout_s=800)]
+CHECKS["C04"]["quick"] = CHECKS["C04"]["quick"] + [S_RACE[1], S_RACE[2], S_RACE[3], S_RACE[7]] + G_LOCKS[:2]
+CHECKS["C04"]["thorough"] = CHECKS["C04"]["thorough"] + [x for i, x in enumerate(S_RACE) if i not in (1, 2, 3, 7)] + G_LOCKS[2:]
+CHECKS["C04"]["bounds"] += "; a dispatch from another thread placed at each of 11 scheduling points inside stop()/close() and the loop run (one placement per query, K=1)"
+CHECKS["C04"]["outside"] = CHECKS["C04"]["outside"].replace("; a dispatch racing with stop() from another thread (needs the S- harnesses)", "; more than one racing call per schedule (K>1); racing calls other than dispatch")
+CHECKS["C01"]["quick"] = CHECKS["C01"]["quick"] + [S_RACE[1], S_RACE[2]] + G_LOCKS[:1]
+CHECKS["C01"]["thorough"] = CHECKS["C01"]["thorough"] + [S_RACE[0]] + S_RACE[3:]
+CHECKS["C02"]["quick"] = CHECKS["C02"]["quick"] + G_LOCKS[:1]
+CHECKS["C02"]["thorough"] = CHECKS["C02"]["thorough"] + G_LOCKS[1:] + S_RACE[:3]
+CHECKS["C02"]["bounds"] += "; the dispatch_tx lock is held at every enqueue (probe), which with FIFO gives a total order extending program order and real-time order (argument)"
 
 HOOK_COMMITS = ["da8b80e", "8cd617e"]
 NOT_APPLICABLE = {}
